@@ -17,13 +17,17 @@ THEOREMS = [P + t for t in (
     "disciplined_sound", "methods_disciplined", "helpers_disciplined", "store_method_paths_accepted",
     "accepts_append",
     "mutual_exclusion", "unique_ids", "no_node_lost", "each_graph_exact", "lock_free_at_end", "no_deadlock",
-    "no_release_error", "store_threads_safe",
+    "no_release_error", "store_never_replaced", "singleton_guard_stable", "store_threads_safe", "weak_guard_counterexample",
     "unlocked_alloc_counterexample", "double_release_counterexample")]
 TRUSTED_BASE = [
     "gen/lockcfg.py: AST -> Stmt translation of both storage classes; the ACCESS table (which statement is which access to "
     "start_id / graph_node_ids / graphs) and its no-raise whitelist W1-W6: GraphID equality search over the store, "
     "Graph.remove_nodes_from / Graph.clear / dict.clear, defaultdict.__getitem__, integer increment/assignment of an id counter, "
     "the insertion step of Graph.add_node, filling a fresh per-graph store entry from the views of the freshly relabelled temp_graph",
+    "singleton protocol: the translator recognises the shells' creation idiom (guard `not X.storage_instance` / `is None`, "
+    "no other assignment to storage_instance / self.lock, no re-run of __init__, __len__/__bool__ on the store classes); the model "
+    "starts with the store in existence (first creation by two threads at once, with no store yet, is not part of the quantifier); "
+    "what happens after a replacement is modelled only as a new generation number",
     "threading.Lock modelled as: acquire blocks while held, release by any thread frees it, release of a free lock is an error",
     "preemption only between source lines of the store classes: preemption inside a line (bytecode level) and the GIL's "
     "atomicity of dict/Graph operations are NOT modelled; the property-graph layer's unlocked structural edits "
@@ -124,6 +128,8 @@ def run_seq(case):
     try:
         for j, op in enumerate(case["ops"]):
             results.append(L.run_op(imp, rec, op, str(j)))
+            if L.identity(rec):
+                break
             if lock.held:          # a leaked lock would hang every later call: free it so the history can continue
                 lock.held = False
                 lock.owner = None
@@ -171,7 +177,7 @@ def sched_request(r, nthreads):
 
 def impl_sched_view(r):
     s = r["snapshot"]
-    return {"lock": s["lock"], "relErr": s["relErr"], "ctr": s["ctr"], "nodes": s["nodes"],
+    return {"lock": s["lock"], "relErr": s["relErr"], "gen": s["gen"], "ctr": s["ctr"], "nodes": s["nodes"],
             "finished": not r["stuck"], "skipped": 0}
 
 
@@ -252,6 +258,13 @@ def check_calls(case, views, results, res, payload):
 
 def check_final(case, r, results, imp, res, payload, ordered_ops, blank_ids):
     fl = case["flavour"]
+    ident = r["identity"] if r is not None else L.identity(L._REC)
+    if ident:
+        res.violation("C20:%s:%s" % (fl, ident),
+                      "%s store: %s while operations were in flight - clients now see a different store / lock than the one "
+                      "earlier operations used (graphs imported into the old one are gone)" % (fl, ident), payload,
+                      expected="one store object and one lock object for the lifetime of the process")
+        return
     if r is not None and r["stuck"]:
         res.violation("C20:%s:threads-blocked-forever" % fl, "threads %s never finished (lock never released)" % r["stuck"], payload)
         return
